@@ -44,7 +44,11 @@ impl<'a> Iterator for TokenIterator<'a> {
                 while let Some('0'..='9') = self.0.peek().cloned() {
                     integer.push(self.0.next().unwrap())
                 }
-                Token::Count(u32::from_str(&integer).unwrap())
+                // A count that does not fit is not a formula.
+                match u32::from_str(&integer) {
+                    Ok(count) => Token::Count(count),
+                    Err(_) => Token::Error,
+                }
             }
             _ => Token::Error,
         };
